@@ -421,6 +421,21 @@ def annotate_loops(text, loops, labels, unit_name, fn_name):
 
 def apply_hints(text, hints, fn_name):
     for h in hints:
+        if "after_loop" in h or "loop_body_start" in h:
+            # structural anchors: right after the closing brace / right after the opening brace of loop #n
+            n = h.get("after_loop", h.get("loop_body_start"))
+            found = find_loops(text)
+            if n >= len(found):
+                raise ExtractError("lost anchor: loop #%d for a structural hint in %s" % (n, fn_name))
+            ob = found[n][2]
+            sub = text[ob:]
+            toks = lex.code_tokens(sub)
+            ce = ob + toks[lex.match_close(sub, toks, 0)][2]
+            if "after_loop" in h:
+                text = text[:ce] + "\n" + h["text"] + "\n" + text[ce:]
+            else:
+                text = text[:ob + 1] + "\n" + h["text"] + "\n" + text[ob + 1:]
+            continue
         anchor = h.get("after") or h.get("before")
         n = text.count(anchor)
         if n < 1 or (h.get("count") is not None and n != h["count"]):
